@@ -364,6 +364,23 @@ func (fr *Frame) applyContract(callee *ssa.Function, fc *FuncContract, bindings 
 			vars[p.Name()] = TV{args[i], p.Type()}
 		}
 	}
+	// a parameter renamed since the contract was written keeps its contract name (see renames.go)
+	if base, ok := c.eng.localsBase[key]; ok && callee.Pkg == c.eng.pkg {
+		cur := functionLocals(callee)
+		same := len(cur) == len(base)
+		for i := 0; same && i < len(cur); i++ {
+			same = cur[i].Type == base[i].Type
+		}
+		if same {
+			for i, p := range callee.Params {
+				if i < len(base) && base[i].Name != p.Name() {
+					if v, ok := vars[p.Name()]; ok {
+						vars[base[i].Name] = v
+					}
+				}
+			}
+		}
+	}
 	if callee.Pkg != c.eng.pkg && cc != nil {
 		// a function without a body here (another package): arguments are arg0, arg1, ... (receiver first)
 		for i := range args {
@@ -376,7 +393,7 @@ func (fr *Frame) applyContract(callee *ssa.Function, fc *FuncContract, bindings 
 	// free variables of closures resolve to the caller's cells
 	localWitness := map[string]TV{}
 	mkCtx := func(cur, old *State) *EvalCtx {
-		x := &EvalCtx{c: c, fr: fr, st: cur, old: old, vars: vars}
+		x := &EvalCtx{c: c, fr: fr, st: cur, old: old, vars: vars, ownerFn: callee}
 		x.resolve = func(name string, xc *EvalCtx) (TV, bool) {
 			for i, fv := range callee.FreeVars {
 				if fv.Name() == name && i < len(bindings) {
@@ -391,12 +408,39 @@ func (fr *Frame) applyContract(callee *ssa.Function, fc *FuncContract, bindings 
 			}
 			t := localVarType(callee, name)
 			if t == nil {
+				// the callee's local may have been renamed since the contract was written (renames.go)
+				for _, cand := range c.eng.renamedCandidates(callee, name) {
+					if t2 := localVarType(callee, cand); t2 != nil {
+						t = t2
+						break
+					}
+				}
+				if t == nil {
+					if v := c.eng.inlinedAllocation(callee, name); v != nil {
+						t = v.Type()
+					}
+				}
+			}
+			if t == nil {
 				// witness of a callee's callee: <fn>_<local>
 				for i := 1; i < len(name); i++ {
 					if name[i] == '_' {
 						if fn2, ok := c.eng.funcs[name[:i]]; ok {
 							if t2 := localVarType(fn2, name[i+1:]); t2 != nil {
 								t = t2
+								break
+							}
+							for _, cand := range c.eng.renamedCandidates(fn2, name[i+1:]) {
+								if t2 := localVarType(fn2, cand); t2 != nil {
+									t = t2
+								}
+							}
+							if t == nil {
+								if v := c.eng.inlinedAllocation(fn2, name[i+1:]); v != nil {
+									t = v.Type()
+								}
+							}
+							if t != nil {
 								break
 							}
 						}
